@@ -275,6 +275,12 @@ def _run_law(case, log, probes):
             probes["labels_exhausted"] = 1
         except bm.CaseTooExpensive:
             probes["truncated_designed_bound"] = 1
+    if n_q > 0 and not lab.by_seed and not probes.get("labels_exhausted"):
+        # torchsde answered queries without a single draw through torch.randn(size, generator=...): the randomness
+        # seam is not engaged (e.g. the library switched to another sampling API). That is a harness limitation to be
+        # reported as such (exit 2), never a verdict about the law.
+        from ..core import HarnessError
+        raise HarnessError("C04: randomness seam not engaged - no torch.randn draw of the sample shape was observed")
     gram_check(answers, numel, probes, foreign=lab.foreign)
     return built if "built" in locals() else None, plan, n_q
 
